@@ -29,6 +29,9 @@ def run(ctx) -> None:
                                           "before the task is generated (or by _suicide), never by the live flag"),
         ("C13.R8-stop-needs-execution", "inside the decision (producers were finished before this pass started) the engine stops only "
                                         "after this pass executed a task, or because no retries are left, or because the kill timer fired"),
+        ("C13.R9-success-of-this-pass", "the 'executed successfully' test of the decision reads the task generated in this pass: a local "
+                                        "whose definitions are None or the result of self.taskGenerator(..), never self.process (which still "
+                                        "holds the previous pass's task when the generator raised), and never dereferenced while it may be None"),
         ("C13.R2-progress", "every pass through the decision block calls kill() or decrements repeatRetries; the ==0 test precedes "
                             "the decrement; repeatRetries has no other writer; default is 3"),
         ("C13.R3-consume-before-execute", "taskGenerator is called only when self.consume and (new output or no producers); _consume is "
@@ -198,6 +201,55 @@ def run(ctx) -> None:
            "the timer callback sets _suicide before it kills the process or the engine, on every path" if ok else
            "the kill-after-producers-done callback does not (first) set _suicide / can return without killing anything",
            construct="suicide(): _suicide = True precedes kill")
+
+    # ---------------- R9 ------------------------------------------------------------------------------
+    rc_tests = [n for n in cfg.nodes if n.kind == "test" and n.ast is not None and any(
+        isinstance(x, ast.Attribute) and x.attr == "returncode" for x in ast.walk(n.ast))]
+    ctx.floor("C13.R9-success-of-this-pass", len(rc_tests), 1, "tests of a task's return code in EngineTaskController")
+    for tn in rc_tests:
+        recv = [x.value for x in ast.walk(tn.ast) if isinstance(x, ast.Attribute) and x.attr == "returncode"][0]
+        if not isinstance(recv, ast.Name):
+            ctx.ob("C13.R9-success-of-this-pass", tn.ast, False,
+                   "the success test reads %s, which outlives the pass: when the task generator raises it is still the task of the "
+                   "previous pass, so a pass that started nothing is judged by an execution that began before the producers' final "
+                   "output and the engine stops without having observed it" % short(recv, 40),
+                   construct="success test reads the task of this pass")
+            continue
+        var = recv.id
+        rd = flow.reaching_defs(cfg, var).get(tn.id, frozenset())
+        bad = []
+        for d in rd:
+            v = flow.def_value(cfg, d, var) if d >= 0 else None
+            if d < 0 or v is None:
+                bad.append("a definition that is not a plain assignment")
+            elif isinstance(v, ast.Constant) and v.value is None:
+                continue
+            elif isinstance(v, ast.Call) and call_name(v) == "self.taskGenerator":
+                continue
+            else:
+                bad.append(short(v, 50))
+        ok = not bad and bool(rd)
+        ctx.ob("C13.R9-success-of-this-pass", tn.ast, ok,
+               "'%s' is None or the task generated in this pass" % var if ok else
+               "'%s' may hold something other than the task generated in this pass (%s)" % (var, "; ".join(bad)),
+               construct="definitions of %s at the success test" % var)
+        # never dereferenced while None: with the not-None guards removed, no None definition reaches the test
+        guards = match.test_nodes(cfg, lambda t, var=var: (
+            ("T" if isinstance(match.compare_parts(t)[1], (ast.IsNot, ast.NotEq)) else "F")
+            if (match.compare_parts(t) and isinstance(match.compare_parts(t)[0], ast.Name) and match.compare_parts(t)[0].id == var
+                and isinstance(match.compare_parts(t)[2], ast.Constant) and match.compare_parts(t)[2].value is None
+                and isinstance(match.compare_parts(t)[1], (ast.Is, ast.IsNot, ast.Eq, ast.NotEq))) else
+            ("T" if isinstance(t, ast.Name) and t.id == var else None)))
+        rd2 = flow.reaching_defs(cfg, var, blocked_edges=[(g.id, lab) for g, lab in guards]).get(tn.id, frozenset())
+        none_defs = [d for d in rd2 if d >= 0 and isinstance(flow.def_value(cfg, d, var), ast.Constant)
+                     and flow.def_value(cfg, d, var).value is None]
+        ok = not none_defs
+        ctx.ob("C13.R9-success-of-this-pass", tn.ast, ok,
+               "the return code is read only where '%s' is a task" % var if ok else
+               "'%s' is still None here when the task generator raised: the AttributeError leaves the pass before kill() or the "
+               "repeatRetries decrement, the monitor logs it and calls again - a launch that keeps failing after the producers "
+               "finished is retried for ever, the retry budget is never consumed and the engine never stops" % var,
+               construct="%s.returncode is read only under '%s is not None'" % (var, var))
 
     # ---------------- R2 ------------------------------------------------------------------------------
     decs = [n for n in cfg.nodes if n.kind == "stmt" and isinstance(n.ast, ast.AugAssign) and isinstance(n.ast.op, ast.Sub)
